@@ -61,7 +61,7 @@ def showKey (k : Key) : String :=
   s!"i{k.inst} op{k.op} occ{k.occ} {methodName k.method} s{k.sid} {layerName k.layer}"
 
 def showEv : Ev → String
-  | .cb k o =>
+  | .cb k _ o =>
     s!"cb {showKey k} | id={o.stateId} act={bitStr o.ctlActive} mact={o.machActive} req={showTr o.request} cur={showOTr o.current} pend={showOTr o.pending} plan={showPlan o.plan}"
   | .act k a => s!"do {showKey k} | {showAction a}"
   | .log i (.method sid m) => s!"log i{i} method {sid} {methodName m}"
@@ -158,6 +158,6 @@ structure Case where
 
 def runCase (c : Case) : List String :=
   let r := run c.cfg (mkBeh c.beh.reverse) c.ops.reverse
-  s!"case {c.name}" :: r.2.map showEv
+  s!"case {c.name}" :: (r.2.filter (fun e => match e with | .cb _ false _ => false | _ => true)).map showEv
 
 end FFSM2.Driver
